@@ -23,7 +23,7 @@ CLAIMED = {
         LAYOUT_NOTE, "DESIGN.md 4/C04"),
     "C05": (PBT + "; differential oracle: order-sensitive systems, parallel dispatch under a generated schedule vs dispatch_seq of the same dispatcher on an identical world; DFS over all interleavings for tiny plans",
         "Differential generated-input search: world contents and every system's state after parallel dispatch must equal the sequential result, for every pool size and schedule tried.",
-        LAYOUT_NOTE + " The comparison without the `parallel` feature is not built (would need a second harness crate); stated in DESIGN.md.", "DESIGN.md 4/C05"),
+        LAYOUT_NOTE + "" + " The no-`parallel`-feature build of the harness (vnopar) and a second process provide the sequential reference results that are compared.", "DESIGN.md 4/C05"),
     "C06": ("property-based testing over generated PROGRAMS: type descriptors from a grammar are compiled against the crate together with the access the harness's own composition rules expect; oracle: all 48 cells probed while the fetched value is alive",
         "Per run 26 tuple arities + 150 generated SystemData types (tuples, Option forms, custom setup handlers, derive structs with extra lifetime / type parameter / where-clause, depth <= 3); declared access, real borrows under >= 6 presence subsets, release, and setup effects are checked for each.",
         "Covers the grammar of compositions the library provides up to depth 3, not arbitrary user impls; cell state is observed through try_fetch_internal + try_borrow(_mut).", "DESIGN.md 4/C06"),
@@ -32,7 +32,7 @@ CLAIMED = {
         LAYOUT_NOTE + " Known finding KF2 (thread-local system inside a batch is not part of the union) is matched by signature.", "DESIGN.md 4/C07"),
     "C08": ("model-based property testing: generated guard histories against a reference machine cell -> Free | Shared(n) | Excl; all cells probed after every step",
         "Histories over fetch / fetch_mut / try_* / by-id / system_data shapes / stepped meta-table iteration / Fetch::clone / drops / unwinding through guards; predicted guard / None / panic for every step.",
-        "Single-threaded histories only (the concurrent variant of DESIGN.md was not built); cell state observed through try_fetch_internal.", "DESIGN.md 4/C08"),
+        "Single-thread histories are decided against the reference machine; the concurrent sub-check (2..8 threads) uses shadow windows and can only observe aliasing that happens on the schedules the OS produces; cell state observed through try_fetch_internal.", "DESIGN.md 4/C08"),
     "C09": ("model-based property testing: generated map histories with matching and mismatching type arguments against a reference BTreeMap, with a drop tracker and an injected panicking destructor",
         "Histories over 20 operations on 5 value types x 3 dynamic ids; every result, the stored TypeId, identity, payload pattern and the set of live values are compared after every step.",
         "Trusts the harness's drop tracker; a crash of the process while a journalled case runs is reported as a violation with that case.", "DESIGN.md 4/C09"),
@@ -65,7 +65,7 @@ CLAIMED = {
         "Nothing is claimed about a builder after it panicked; explores a finite sample.", "DESIGN.md 4/C18"),
     "C19": (PBT + "; metamorphic relation: renaming / relabelling / list permutation leave the executed layout unchanged",
         "Metamorphic generated-input search: P, P built twice, and transformed P' must give identical canonical layouts.",
-        LAYOUT_NOTE + " Separate-process and no-`parallel`-feature comparisons are not built (stated in DESIGN.md).", "DESIGN.md 4/C19"),
+        LAYOUT_NOTE + " c19-processes compares with a second process and with the harness built without the `parallel` feature.", "DESIGN.md 4/C19"),
     "C20": (PBT + "; oracle = printed text parses and equals the executed layout position by position",
         "Generated-input search over builders with unnamed systems, arbitrary names over letters and the sanitised characters, batches, empty builders. Found and fixed one defect (unnamed systems made Debug panic).",
         LAYOUT_NOTE + " print_par_seq is println!(\"{:#?}\", self), i.e. the same formatter; it is not called separately (it would flood stdout).", "DESIGN.md 4/C20"),
